@@ -192,6 +192,11 @@ inductive Ev where
   | disable        -- reload with DNS disabled: `enabled.Store(false)`, `clearRecords()`
   | enable         -- reload with DNS enabled: `enabled.Store(true)`, `seedSelf()`
   | hs (k : Nat) (certName : Name) (vpnAddrs : List Addr)
+  /-- certificate reload followed by the DNS reload callback: the own certificate is replaced
+  (`pki.cs.Store`), then `seedSelf()` -/
+  | renew (certName : Name) (vpnAddrs : List Addr)
+  /-- `HostMap.DeleteHostInfo` of the hostinfo of handshake `k` (tunnel teardown) -/
+  | drop (k : Nat)
   deriving Repr
 
 def apply (s : St) : Ev → St
@@ -199,6 +204,8 @@ def apply (s : St) : Ev → St
   | .disable => clearRecords { s with enabled := false }
   | .enable => seedSelf { s with enabled := true }
   | .hs k n as => addHostInfo s k n as
+  | .renew n as => seedSelf { s with self := some (n, as) }
+  | .drop k => { s with hosts := s.hosts.filter (fun e => e.2 != k) }
 
 def run (self : Option (Name × List Addr)) (evs : List Ev) : St := evs.foldl apply (St.init self)
 
